@@ -37,6 +37,11 @@ func (c06Engine) Run(t *testing.T, batch string, tape *rt.Tape, runIdx uint64, e
 	if strings.HasPrefix(batch, "c06.peer") {
 		return clientEngine{"C06"}.Run(t, batch, tape, runIdx, extra, trace)
 	}
+	if batch == "c06.race" {
+		// the same simulation in a -race build: unsynchronised map access in the client kills the engine
+		// process, and no Execute returns
+		return watchRaces("C06", func() RunRecord { return sessionEngine{}.Run(t, batch, tape, runIdx, extra, trace) })
+	}
 	return sessionEngine{}.Run(t, batch, tape, runIdx, extra, trace)
 }
 
@@ -68,12 +73,12 @@ func sessionOptsFor(batch string) SessionOpts {
 	switch batch {
 	case "c06.serial":
 		return SessionOpts{MaxCallers: 1, MaxCalls: 4, SerialOnly: true, Signals: true}
-	case "c06.mixed", "c06.sweep":
+	case "c06.mixed", "c06.sweep", "c06.race":
 		return SessionOpts{MaxCallers: 3, MaxCalls: 3, Signals: true, BadInputs: true, UnknownStep: true, SlowSteps: true, CloseEarly: true, DupRunIDs: true, Latency: true}
 	case "c05.basic":
-		return SessionOpts{MaxCallers: 4, MaxCalls: 3, BadInputs: true, UnknownStep: true, BigPayloads: true, RichSchemas: true, SlowSteps: true, Latency: true}
+		return SessionOpts{MaxCallers: 4, MaxCalls: 3, BadInputs: true, UnknownStep: true, BigPayloads: true, RichSchemas: true, SlowSteps: true, Latency: true, DupRunIDs: true}
 	case "c05.signals":
-		return SessionOpts{MaxCallers: 3, MaxCalls: 3, Signals: true, BadInputs: true, BigPayloads: true, SlowSteps: true}
+		return SessionOpts{MaxCallers: 3, MaxCalls: 3, Signals: true, BadInputs: true, BigPayloads: true, SlowSteps: true, DupRunIDs: true}
 	case "c13.session":
 		return SessionOpts{MaxCallers: 4, MaxCalls: 2, BigPayloads: true, RichSchemas: true, BadInputs: true}
 	case "c09.session":
@@ -302,5 +307,5 @@ func sessionMaxSteps() int {
 	if rt.RaceBuild {
 		return 6000000
 	}
-	return 300000
+	return 400000
 }
